@@ -30,5 +30,17 @@ Three == { [nmol |-> 3, nodes |-> <<1..3, 1..3, 1..3>>, path |-> <<P3, P3, P3>>,
             nrewind |-> 2, maxiter |-> 1, maxattempts |-> 1]
            : A \in {{}, {1,2,3}}, I \in {{}, {2}, {1}, {3}} }
 MCInstances == OneOk \cup Two \cup Three
+\* thorough tier: longer and more branched growth trees, deeper rewinds, more tolerated consecutive failures, more attempts
+P6 == << <<1,2>>, <<2,3>>, <<3,4>>, <<4,5>>, <<5,6>> >>
+T6 == << <<1,2>>, <<1,5>>, <<2,3>>, <<2,4>>, <<5,6>> >>       \* 1-(2-(3,4), 5-6): two branch points
+S5 == << <<1,2>>, <<1,3>>, <<1,4>>, <<1,5>> >>
+DeepShapes == { [n |-> 6, path |-> P6], [n |-> 6, path |-> T6], [n |-> 5, path |-> S5] }
+Deep1 == { [nmol |-> 1, nodes |-> <<1..sh.n>>, path |-> <<sh.path>>, root |-> <<1>>, attr |-> <<A>>, ignored |-> {},
+            nrewind |-> r, maxiter |-> mi, maxattempts |-> 2]
+           : sh \in DeepShapes, A \in {{}, {1}, {2}, {3}, {1, 2}, {2, 4}, {3, 5}, {1, 3, 5}}, r \in {2, 4, 5}, mi \in {1, 3} }
+Deep2 == { [nmol |-> 2, nodes |-> <<1..5, 1..4>>, path |-> <<Y5, S4>>, root |-> <<1, 1>>, attr |-> <<A, B>>, ignored |-> {},
+            nrewind |-> r, maxiter |-> 2, maxattempts |-> 1]
+           : A \in {{}, {2}, {1, 3}}, B \in {{}, {1}, {3}}, r \in {1, 3} }
+MCDeep == MCInstances \cup Deep1 \cup Deep2
 MCSmall == { i \in OneOk : i.nrewind = 2 } \cup { i \in Two : i.nrewind = 2 }
 =============================================================================
